@@ -38,7 +38,8 @@ class Harness:
         c = engine.CTX
         N, L = self.N, self.L
         kind = self.kinds[c.choose(len(self.kinds), 'kind')]
-        m = SymMgr(N, 0, L, with_cache=False, with_refs=False)
+        # names whose alphabetical order differs from the level order
+        m = SymMgr(N, 0, L, names=['c', 'a', 'd', 'b'][:L], with_cache=False, with_refs=False)
         m.decl = 'choose'
         m.assume_pre()
         bdd = m.install(self.B)
